@@ -91,3 +91,51 @@ pub fn from_var(v: &Variable) -> Option<Json> {
 pub fn show(v: &Json) -> String {
     to_text(v)
 }
+
+/// builds the real value through the public constructors (no parsing involved)
+pub fn to_var(v: &Json) -> Variable {
+    match v {
+        Json::Null => Variable::Void,
+        Json::Bool(b) => Variable::Bool(*b),
+        Json::Number(n) => Variable::Int(n.as_i64().expect("int")),
+        Json::String(s) => Variable::String(s.as_str().into()),
+        Json::Array(xs) => Variable::from(xs.iter().map(to_var).collect::<Vec<_>>()),
+        Json::Object(o) => {
+            if let Some(bits) = o.get("f") {
+                Variable::Float(f64::from_bits(bits.as_u64().unwrap()))
+            } else if let Some(Json::Array(xs)) = o.get("t") {
+                Variable::Tuple(xs.iter().map(to_var).collect())
+            } else if let Some(Json::Object(fs)) = o.get("s") {
+                let m: std::collections::HashMap<std::sync::Arc<str>, Variable> =
+                    fs.iter().map(|(k, v)| (k.as_str().into(), to_var(v))).collect();
+                Variable::Struct(m.into())
+            } else {
+                panic!("bad literal model {v}")
+            }
+        }
+    }
+}
+
+pub fn contains_int(v: &Json, needle: i64) -> bool {
+    match v {
+        Json::Number(n) => n.as_i64() == Some(needle),
+        Json::Array(xs) => xs.iter().any(|x| contains_int(x, needle)),
+        Json::Object(o) => o.values().any(|x| match x {
+            Json::Array(xs) => xs.iter().any(|x| contains_int(x, needle)),
+            Json::Object(fs) => fs.values().any(|x| contains_int(x, needle)),
+            _ => false,
+        }),
+        _ => false,
+    }
+}
+
+pub fn depth(v: &Json) -> usize {
+    match v {
+        Json::Array(xs) => 1 + xs.iter().map(depth).max().unwrap_or(0),
+        Json::Object(o) => match o.get("t") {
+            Some(Json::Array(xs)) => 1 + xs.iter().map(depth).max().unwrap_or(0),
+            _ => 0,
+        },
+        _ => 0,
+    }
+}
